@@ -2,6 +2,7 @@ import OrbitModel.Proofs.Auth
 import OrbitModel.Proofs.AuthBatch
 import OrbitModel.Proofs.AuthExamples
 import OrbitModel.Model.Store
+import OrbitModel.Proofs.GenEqVerify
 /-!
 # C04 — tampered, mis-addressed or foreign-database entries are never merged
 -/
@@ -99,5 +100,12 @@ theorem twin_of_a_genuine_entry_was_merged_before_the_fix :
     (∃ L, loadHead { wildcard := true } (goodFetch { wildcard := true } 1 fetch) (-1) (Log.empty 1) 3 = .ok L ∧
       t ∉ L.entries ∧ g ∈ L.entries ∧ x ∈ L.entries) := by
   refine ⟨⟨_, rfl, ?_⟩, ⟨_, rfl, ?_, ?_, ?_⟩⟩ <;> decide
+
+/-- the steps of `VerifyEntryAuthor` of the Go text of this run, in the order of `Order.verifyAuthor`: the
+identity's type is looked at BEFORE the canonical-signature rule, which is a rule about the ECDSA
+signatures of "orbitdb" identities (review of the F31 repair, fix: commit - applied before the type test it
+refused every entry, the writer's own included, of an identity whose provider signs with another scheme) -/
+theorem author_check_steps_tied_to_go_text : Gen.verifyAuthorOrder = Order.verifyAuthor :=
+  gen_verifyAuthor_order
 
 end Orbit.C04
